@@ -37,8 +37,9 @@ BINARY = ["add", "sub", "mul", "div", "pow"]
 RELS = ["Eq", "Ne", "Lt", "Le", "Gt", "Ge"]
 CONSTS = ["pi", "E", "EulerGamma", "Catalan", "GoldenRatio"]
 
-# VERIF_C12_REPORT_KNOWN=1: report the known finding KF-C12-01 as a violation instead of skipping the sub-case
-REPORT_KNOWN = bool(os.environ.get("VERIF_C12_REPORT_KNOWN"))
+# known-finding tags (GUIDE "Known findings protocol"): an exclusion is applied iff self.tag_active(tag)
+TAG_NEGPOW = "evalf_symbolic_negative_base_integer_power"     # KF-C12-01
+TAG_GAMMA = "gamma_half_integer_int_overflow"                  # gamma_multiple_2 `int` product (crasher)
 
 I = lambda n: ["integer", n]
 Q = lambda a, b: gen._rat(a, b)
@@ -147,8 +148,8 @@ class C12(Check):
             "ill_conditioned.  eval_double, "
             "eval_double_single_dispatch, eval_double_visitor_pattern, eval_complex_double, evalf(bits<=53, "
             "real|complex|symbolic) are judged; the three real evaluators must agree within 4 ulp (kappa-tolerance "
-            "when exp(x) is present: single dispatch computes pow(E,x)).  Known finding KF-C12-01 (symbolic evalf of a "
-            "real expression detours through ComplexDouble) is matched narrowly and counted under skipped['known:*'].  Non-trivial: constructed tree with >= 3 "
+            "when exp(x) is present: single dispatch computes pow(E,x)).  Known findings (tags evalf_symbolic_negative_base_integer_power, gamma_half_integer_int_overflow) are "
+            "excluded narrowly only while their tag is active, counted under skipped['known:*'].  Non-trivial: constructed tree with >= 3 "
             "distinct node types; distinct by recipe.  classes: node:<T> = judged eval_double cases containing T, "
             "sd:/cx:/evalf: likewise per evaluator.")
     assumptions = ["mpmath principal branches are the reference (DESIGN 3.5: asec x = acos(1/x) ...)",
@@ -228,8 +229,8 @@ class C12(Check):
         stmts = [rec, ["eval_complex_double", R(0)], ["evalf", R(0), bits, "complex"], ["evalf", R(0), bits, "symbolic"]]
         if not cm:
             stmts += [["eval_double", R(0)], ["eval_double_sd", R(0)], ["eval_double_vp", R(0)], ["evalf", R(0), bits, "real"]]
-        if en.gamma_half_integer_risk(rec):
-            self.skip("known:gamma_multiple_2_int_overflow(pre-excluded crasher, C08)")
+        if self.tag_active(TAG_GAMMA) and en.gamma_half_integer_risk(rec):
+            self.skip("known:" + TAG_GAMMA)     # crasher: not sent to the driver while the finding is open
             return
         # reference over the recipe first (also guards against astronomically large intermediates)
         try:
@@ -325,9 +326,9 @@ class C12(Check):
                 # evalf converts the exponent to RealDouble and RealDouble::powreal(RealDouble) takes the complex
                 # route for every negative base -> ComplexDouble with a rounding-noise imaginary part -> real-only
                 # consumers (min/max/relationals) return the wrong argument
-                if cm or REPORT_KNOWN or not negbase_intpow(dump):
+                if cm or not self.tag_active(TAG_NEGPOW) or not negbase_intpow(dump):
                     raise
-                self.skip("known:evalf_symbolic_negative_base_integer_power")
+                self.skip("known:" + TAG_NEGPOW)
         # ---- real evaluators
         if not cm:
             vals = {}
